@@ -610,6 +610,19 @@ def main_check(prop_id, tier, seed, replay=None):
         else:
             unexplained.append(r)
 
+    # a theorem / tie is red but no sampled case fails: let the property module search its space directly
+    # (implementation + property oracle only; no model needed)
+    if (broken or unexplained) and not failing and hasattr(mod, 'search_cases'):
+        extra = list(mod.search_cases(broken, rng))
+        cov['search_cases'] = len(extra)
+        for c in extra:
+            iv = jcanon(run_impl(mod.impl, c))
+            sp = mod.spec(c, iv)
+            if sp:
+                failing.append(({'case': c, 'impl': iv, 'model': None, 'wf': True, 'evaluated': False, 'spec': sp, 'noshrink': True},
+                                'property oracle (directed search): ' + str(sp)))
+                break
+
     known_hit = {}
     real = []
     for r, why in failing:
@@ -644,7 +657,7 @@ def main_check(prop_id, tier, seed, replay=None):
                 small = shrink(r['case'], still)
         except Exception:
             traceback.print_exc()
-        rs, _ = evaluate_cases(mod, [small], tag='final') if model_built else ([r], [])
+        rs, _ = evaluate_cases(mod, [small], tag='final') if (model_built and not r.get('noshrink')) else ([r], [])
         fr = rs[0]
         payload = {'property': prop_id, 'kind': 'failing-input', 'case': fr['case'], 'observed': fr['impl'],
                    'expected_model': fr['model'], 'why': why, 'original_case': r['case'],
